@@ -174,7 +174,8 @@ CLAIMED = {
         "session manager, endpoint context and JSON text, opaque and JWT handlers, three ways of pinning keys — against the Lean provider model "
         "(restore must be the identity) and against the unrestored run; per-object ImpExp model vs restored attributes; registration / jti / PAR / "
         "CIBA state across restores; file-store operation sequences on real directories vs the Lean model.",
-   note="Relying-party side export/import (Current, ServiceContext) is not yet exercised; JSON value syntax, mtime granularity and concurrent writers are not modelled.",
+   note="Relying-party side: the service context (Current state store, registration, provider info) is exported / imported between the steps of multi-flow histories and "
+        "compared with C09's state model; the services' own dump is not exercised. JSON value syntax, mtime granularity and concurrent writers of the file store are not modelled.",
    technique="Lean 4 proof (invariant by induction over file-store operations; generic dump/load law + generated table obligation) + crash-point correspondence", ref="6 C13"),
  "C08": dict(
    text="Lean theorems over a model of verify_id_token + IdToken.verify + the service-level nonce checks: acceptance — through the message API "
